@@ -5,6 +5,7 @@ import (
 	"io"
 	"io/fs"
 	"os"
+	"reflect"
 	"sort"
 	"strings"
 	"time"
@@ -447,6 +448,18 @@ func (r *Runner) Do(o Op) (out Out) {
 	case "FClose":
 		return e(h.Close())
 	case "FName":
+		if h == nil || reflect.ValueOf(h).IsNil() {
+			// File.Name on a nil handle panics in package os too: the one sanctioned panic
+			func() {
+				defer func() {
+					if recover() != nil {
+						out = Out{Err: "PANIC", Val: "nil-handle"}
+					}
+				}()
+				out = Out{Err: "ok", Val: h.Name()}
+			}()
+			return out
+		}
 		return Out{Err: "ok", Val: h.Name()}
 	case "FReadDir":
 		// directory order is unspecified in package os: for a partial read only
